@@ -160,6 +160,32 @@ macro_rules! field_probe {
                     let other = of(a) + <$T>::one() - <$T>::one();
                     cx.eq("Hash(a) == Hash(a + 1 - 1)", &d, h(&of(a)), h(&other));
                 }
+                // decimal strings of every length: powers of two and of ten around every machine-word boundary, values above the
+                // modulus (reduced), leading zeros, the empty string; anything that is not a string of digits is refused
+                {
+                    let mut ints: Vec<N> = Vec::new();
+                    for k in 0..=($nb * 8 + 8usize) { let v: N = n(1) << k; ints.push(&v - n(1)); ints.push(v.clone()); ints.push(&v + n(1)); }
+                    let mut t = n(1);
+                    for _ in 0..=($nb * 8 * 3 / 10 + 4usize) { ints.push(&t - n(1)); ints.push(t.clone()); ints.push(&t * n(9)); t = &t * n(10); }
+                    for v in ints.iter() {
+                        let txt = v.to_string();
+                        let d = || format!("{} decimal string {:?}", $tag, txt);
+                        match { let t2 = txt.clone(); crate::no_panic_or(move || <$T as core::str::FromStr>::from_str(&t2)) } {
+                            Some(Ok(x)) => cx.eq("FromStr(decimal string) == value mod p", &d, to(&x), v % &p),
+                            Some(Err(_)) => cx.cex("FromStr rejects a string of decimal digits", d(), "Err".into(), "Ok".into()),
+                            None => cx.cex("FromStr panics on a string of decimal digits", d(), "panic".into(), "Ok".into()) }
+                        let padded = format!("000{}", txt);
+                        match { let t2 = padded.clone(); crate::no_panic_or(move || <$T as core::str::FromStr>::from_str(&t2)) } {
+                            Some(Ok(x)) => cx.eq("FromStr(leading zeros)", &d, to(&x), v % &p),
+                            _ => cx.cex("FromStr rejects / panics on leading zeros", d(), "Err".into(), "Ok".into()) }
+                    }
+                    let d = || format!("{} empty string", $tag);
+                    match <$T as core::str::FromStr>::from_str("") { Ok(x) => cx.eq("FromStr(\"\") == 0", &d, to(&x), n(0)), Err(_) => cx.cex("FromStr rejects the empty string (accepted upstream)", d(), "Err".into(), "Ok".into()) }
+                    for bad in ["12a", "-1", "+5", " 1", "1 ", "0x10", "1_000", "١٢"] {
+                        let d = || format!("{} string {:?}", $tag, bad);
+                        cx.eq("FromStr refuses a non-digit", &d, <$T as core::str::FromStr>::from_str(bad).is_err(), true);
+                    }
+                }
                 // exactly the integers below p are accepted
                 let mut edge = vec![p.clone(), &p + n(1), &top - n(1)];
                 for k in ($nb * 8 - 16)..($nb * 8) { let v = n(1) << k; if v >= p { edge.push(v); } }
